@@ -4,6 +4,7 @@
   assignment overwrites in place or appends).
 -/
 import DemesVerif.Model.Num
+import DemesVerif.Model.Ident
 namespace Demes
 
 inductive Value where
@@ -75,11 +76,15 @@ def asObj? : Value → Option Obj
 
 end Value
 
-/-! ### ASCII identifiers (`str.isidentifier` restricted to ASCII; non-ASCII names are
-outside the Model, see DESIGN §6) -/
+/-! ### identifiers (`str.isidentifier`): ASCII letters, digits and the underscore are fixed here;
+beyond ASCII the interpreter's XID_Start / XID_Continue classes are the pinned range tables of
+`Model/Ident.lean` (regenerated from the running interpreter and proved equal on every run,
+`Theorems/TablesIdent.lean`) -/
 
-def isIdStart (c : Char) : Bool := c.isAlpha || c == '_'
-def isIdCont (c : Char) : Bool := c.isAlphanum || c == '_'
+def isIdStart (c : Char) : Bool :=
+  c.isAlpha || c == '_' || (decide (128 ≤ c.toNat) && Ident.inRanges Ident.xidStartRanges c.toNat)
+def isIdCont (c : Char) : Bool :=
+  c.isAlphanum || c == '_' || (decide (128 ≤ c.toNat) && Ident.inRanges Ident.xidContinueRanges c.toNat)
 
 def isIdentifier (s : String) : Bool :=
   match s.toList with
